@@ -13,6 +13,7 @@ import (
 	"crypto/x509"
 	"errors"
 	"fmt"
+	"io"
 	"net"
 	"net/http"
 	"os"
@@ -53,6 +54,7 @@ func (hp *HTTPProxy) errorResponse(req *http.Request, err error) *http.Response 
 		handleTLSCertificateError,
 		handleTLSECHRejectionError,
 		handleTLSAlertError,
+		handleEOFError,
 		handleMartianErrorStatus,
 		handleAuthenticationError,
 		handleDenyError,
@@ -196,6 +198,16 @@ func handleTLSAlertError(req *http.Request, err error) (code int, msg, label str
 		code = http.StatusBadGateway
 		msg = fmt.Sprintf("tls alert for host %q", req.Host)
 		label = "tls_alert"
+	}
+
+	return
+}
+
+func handleEOFError(req *http.Request, err error) (code int, msg, label string) {
+	if errors.Is(err, io.EOF) || errors.Is(err, io.ErrUnexpectedEOF) {
+		code = http.StatusBadGateway
+		msg = fmt.Sprintf("connection closed by remote host %q", req.Host)
+		label = "net_eof"
 	}
 
 	return
